@@ -515,7 +515,49 @@ def mutate_live(rnd, gt, sp, nodes, aux_values, count):
             return _u.UUID(int=r.getrandbits(128))
 
     for _ in range(count):
-        k = rnd.randrange(11)
+        k = rnd.randrange(14)
+        if k >= 12:
+            # a symbol's payload switched between none / value / referent
+            ms = [m for m in sp["modules"] if m["symbols"]]
+            if not ms:
+                continue
+            m = rnd.choice(ms)
+            y = rnd.choice(m["symbols"])
+            blocks = [b["uuid"] for s_ in m["sections"]
+                      for bi in s_["intervals"] for b in bi["blocks"]] + \
+                [p_["uuid"] for p_ in m["proxies"]]
+            opts = [None, {"value": rnd.choice([0, 1, (1 << 64) - 1])}]
+            if blocks:
+                opts.append({"ref": rnd.choice(blocks)})
+            new = rnd.choice([o for o in opts if o != y["payload"]] or opts)
+            o = nodes[y["uuid"]]
+            if new is None:
+                if rnd.random() < 0.5:
+                    o.value = None
+                else:
+                    o.referent = None
+            elif "value" in new:
+                o.value = new["value"]
+            else:
+                o.referent = nodes[new["ref"]]
+            y["payload"] = new
+            done.append("symbol.payload:to-" + (
+                "None" if new is None else list(new)[0]))
+            continue
+        if k == 11:
+            # entry point changed or cleared
+            if not sp["modules"]:
+                continue
+            m = rnd.choice(sp["modules"])
+            code = [b["uuid"] for m2 in sp["modules"]
+                    for s_ in m2["sections"] for bi in s_["intervals"]
+                    for b in bi["blocks"] if b["kind"] == "code"]
+            new = rnd.choice([None] + code)
+            nodes[m["uuid"]].entry_point = None if new is None \
+                else nodes[new]
+            m["entry_point"] = new
+            done.append("module.entry_point")
+            continue
         if k >= 9:
             # a node taken out of its parent, given another UUID, and put
             # back: everything that refers to it refers to the object, so
